@@ -649,6 +649,43 @@ func runSkip(sc *streamScenario, rec *recorder) {
 			rec.ev(e)
 		})
 	}
+	// the context becomes done while a call is skipping packets (cancelled from inside the predicate, at a packet it selects): the
+	// call goes on to the next packet that is kept or ends with an error; a packet the predicate selects is never returned
+	{
+		ctx, cancel := context.WithCancel(context.Background())
+		var sel []int
+		for i := range bs.pkts {
+			if piOf(sc.Skip, i, &bs.pkts[i], sc.Seed) {
+				sel = append(sel, i)
+			}
+		}
+		at := -1
+		if len(sel) > 0 {
+			at = sel[rgk.intn(len(sel))]
+		}
+		n := 0
+		sk := func(p *astits.Packet) bool {
+			i := n
+			n++
+			if i == at {
+				cancel()
+			}
+			if i < len(bs.pkts) {
+				return piOf(sc.Skip, i, &bs.pkts[i], sc.Seed)
+			}
+			return false
+		}
+		dmx := astits.NewDemuxer(ctx, bytes.NewReader(full), astits.DemuxerOptPacketSize(188), astits.DemuxerOptPacketSkipper(sk))
+		for k := 0; k < bound; k++ {
+			p, err := dmx.NextPacket()
+			if err != nil {
+				break
+			}
+			rec.ev(M{"ev": "packet", "run": "skipCtx", "pid": int(p.Header.PID), "hdg": hdrDigest(p)})
+		}
+		rec.ev(M{"ev": "eof", "run": "skipCtx"})
+		cancel()
+	}
 	rewound("skipBR", filtered, false, false)
 	rewound("skipRe", full, true, false)
 	if len(bs.pkts) >= 3 && sc.Run.PSize == 0 {
